@@ -1301,6 +1301,10 @@ func checkCopyDeep(c *Ctx, p *packages.Package, rule string) {
 						if _, isRet := parent[x].(*ast.ReturnStmt); isRet {
 							bad = "the original node is returned as its own copy"
 						}
+						// star := *v; return &star  copies the struct and with it the pointers to the children
+						if se, isStar := parent[x].(*ast.StarExpr); isStar && se.X == ast.Expr(x) {
+							bad = "the node is copied by value (*" + x.Name + "), which copies the pointers to its children, not the children"
+						}
 					}
 				}
 				return true
